@@ -97,6 +97,7 @@ from xandikos.store import (
     STORE_TYPE_SCHEDULE_OUTBOX,
     STORE_TYPE_SUBSCRIPTION,
     DuplicateUidError,
+    InvalidETag,
     File,
     InvalidCTag,
     InvalidFileContents,
@@ -237,6 +238,11 @@ class ObjectResource(webdav.Resource):
             ) from exc
         except LockedError as exc:
             raise webdav.ResourceLocked() from exc
+        except InvalidETag as exc:
+            # Changed by somebody else since the request's ETag was looked up
+            raise webdav.PreconditionFailure(
+                "{DAV:}getetag", "The resource has changed."
+            ) from exc
         return create_strong_etag(etag)
 
     def get_content_language(self) -> str:
@@ -390,6 +396,11 @@ class StoreBasedCollection:
         assert name != ""
         try:
             self.store.delete_one(name, etag=extract_strong_etag(etag))
+        except InvalidETag as exc:
+            # Changed by somebody else since the request's ETag was looked up
+            raise webdav.PreconditionFailure(
+                "{DAV:}getetag", "The resource has changed."
+            ) from exc
         except NoSuchItem:
             # TODO: Properly allow removing subcollections
             # self.get_subcollection(name).destroy()
